@@ -76,6 +76,10 @@ func (k Keeper) RequestModuleService(
 		return err
 	}
 
+	// the only batch has been issued and answered here: queue its expiration instead of a new batch
+	k.DeleteNewRequestBatch(ctx, reqContextID, ctx.BlockHeight())
+	k.AddRequestBatchExpiration(ctx, reqContextID, ctx.BlockHeight()+requestContext.Timeout)
+
 	ctx.EventManager().EmitEvents(sdk.Events{
 		sdk.NewEvent(
 			sdk.EventTypeMessage,
